@@ -132,6 +132,19 @@ reg('C03', True,
     'libraries.',
     'clang 14 AST/CFG of 131 units (all geometric, control and multilevel planners); call graph by CHA',
     'path-sensitive typestate with relevance slicing over clang CFG + acquire/release pairing + sibling agreement')
-for _p in ['C01', 'C02', 'C06', 'C07', 'C14', 'C15', 'C16',
+reg('C01', True,
+    'Decides structural necessary conditions over all geometric and multilevel planner units: tree links, roadmap edges '
+    'and FMT-style re-parenting are created only on CFG paths dominated by a successful motion check (3-argument '
+    'validated-prefix and both-branches-check ternaries recognised; helpers discharged at call sites; lazy planners and '
+    'six helper idioms listed with reasons); lazy validators mark motions/vertices/edges valid only after the check and '
+    'LazyPRM\'s edge walk reaches the root; start/goal states handed to planners passed satisfiesBounds and isValid; in '
+    '32 solve() functions status, approximate flag and registration agree; the node recorded as (approximate) solution '
+    'is the node whose state goal->isSatisfied tested; PathGeometric::check covers state 0 and every adjacent pair; path '
+    'assembly loops cover every extracted node; interpolation parameters A/D are guarded by D > A or followed by '
+    'enforceBounds before use. Not decided: correctness of checkMotion itself (C05), bounds of interpolated states in '
+    'general, "no stretch longer than twice the resolution", BIT*/AIT*/EIT* edge bookkeeping beyond what is listed.',
+    'clang 14 AST/CFG of 115 units; the validity checker and goal are opaque',
+    'guard dominance and path-sensitive typestate over clang CFG with verdict-relevance slicing + call-site agreement')
+for _p in ['C02', 'C06', 'C07', 'C14', 'C15', 'C16',
            'C17', 'C20']:
     reg(_p, False, '', '', '', PENDING)
